@@ -27,7 +27,11 @@ func runC02(r *Run) {
 		Store: store, NOps: nOps, FullEvery: []int{1, 3, 6}[cfg.Intn(3)], Restarts: true,
 		Gen: func(d *draws, m *gModel, i int) gOp {
 			b := gBuckets[d.w(4, 1)]
-			switch d.w(6, 3, 1, 2) {
+			switch d.w(12, 6, 2, 4, 1) {
+			case 4:
+				// the bucket is created again: it keeps everything it holds
+				r.Probe("c02.bucket_created_again")
+				return gOp{Kind: "CreateBucket", Bucket: b}
 			case 0:
 				name := existingName(d, m, b, g.names())
 				if m.obj(b, name) != nil {
@@ -49,7 +53,7 @@ func runC02(r *Run) {
 			}
 		},
 		After: func(op gOp, resp gResp, m *gModel, w *GCSWorld) bool {
-			if op.Folder {
+			if op.Folder || op.Kind == "CreateBucket" {
 				// whatever the answer, the objects below the folder name are untouched
 				if k, msg := fullCompareG(w, m); k != "" {
 					r.Fail(k, "", "after %s -> HTTP %d: %s", op, resp.Status, msg)
